@@ -37,13 +37,21 @@ def _burrow_ite[T: Base](expr: T) -> T:
         return expr
 
     matches = [old_true.args[i] is old_false.args[i] for i in range(len(old_true.args))]
-    if matches.count(True) != 1 or all(matches):
+    if matches.count(False) != 1:
         # TODO: handle multiple differences for multi-arg ast nodes
         # print("wrong number of matches:",matches,old_true,old_false)
         return expr
 
     different_idx = matches.index(False)
-    inner_if = claripy.If(expr.args[0], old_true.args[different_idx], old_false.args[different_idx])
+    true_arg = old_true.args[different_idx]
+    false_arg = old_false.args[different_idx]
+    if not isinstance(true_arg, Base) or not isinstance(false_arg, Base):
+        # the two sides differ in a parameter (an extraction bound, a rounding mode), not in an operand
+        return expr
+    if type(true_arg) is not type(false_arg) or true_arg.length != false_arg.length:
+        # no If can select between operands of different sorts, e.g. x[7:0] and y[7:0] with x and y of different sizes
+        return expr
+    inner_if = claripy.If(expr.args[0], true_arg, false_arg)
     new_args = list(old_true.args)
     new_args[different_idx] = burrow_ite(inner_if)
     return old_true.__class__(old_true.op, new_args, length=expr.length)
